@@ -5,8 +5,9 @@ option-flags byte; BoundSheet 8-bit cch, LABEL / STRING 16-bit cch, FORMAT, NAME
 under any CODEPAGE value (XlsEncoding::decode_to / high_byte), LABEL vs SST + LABELSST, NUMBER / RK / MULRK.
 IDEAL: bytes of page P read as the text they denote in P; BIFF8 strings are Unicode whatever CODEPAGE says; names,
 texts and numbers do not depend on the physical form.  Mismatches are SPEC-DRIFT; the deviations of the pinned code
-are named (known_findings.json, property X04): Biff8CodePage, DbcsByteString, Biff5Format, Biff5Lbl, ShortString,
-BomSniff, UnsupportedCodePage.
+are named (known_findings.json, property X04): DbcsByteString, Biff5Format, Biff5Lbl, ShortString, UnsupportedCodePage.
+Biff8CodePage and BomSniff were repaired by /repo commit 4e8471f (they reach legal BIFF8 files: C19); the reader model
+is the repaired one, MC_Biff5_aswas.cfg keeps the reader as it was (AsWas = TRUE) and TLC has to refute it (self-test).
 
 Binding demonstrated with bin/mutant (each ends in MUTANT KILLED; run from a worktree, never from /verif):
   BOF dispatch        bin/mutant X04 's/0x0500 => Biff::Biff5/0x0500 => Biff::Biff8/@src/xls.rs'
@@ -14,6 +15,7 @@ Binding demonstrated with bin/mutant (each ends in MUTANT KILLED; run from a wor
   stream name         bin/mutant X04 's/cfb.get_stream("Book", /cfb.get_stream("Books", /@src/xls.rs'
   code-page selection bin/mutant X04 's/force_codepage.unwrap_or(1200)/force_codepage.unwrap_or(1252)/@src/xls.rs'
                       bin/mutant X04 's/encoding = XlsEncoding::from_codepage(read_u16(r.data))?/encoding = XlsEncoding::from_codepage(read_u16(r.data) | 1)?/@src/xls.rs'
+  UTF-16 for BIFF8    bin/mutant X04 's/let encoding = if high_byte.is_some() {/let encoding = if high_byte.is_none() {/@src/cfb.rs'
   byte-string length  bin/mutant X04 's/Biff::Biff2 | Biff::Biff3 | Biff::Biff4 | Biff::Biff5 => (None, 2)/Biff::Biff2 | Biff::Biff3 | Biff::Biff4 | Biff::Biff5 => (None, 3)/@src/xls.rs'
   / flags byte        bin/mutant X04 's/let cch = read_u16(r) as usize;/let cch = r[0] as usize;/@src/xls.rs'      (killed by the trace leg: strings > 255 bytes)
                       bin/mutant X04 's/if matches!(biff, Biff::Biff8) {/if !matches!(biff, Biff::Biff8) {/@src/xls.rs'
@@ -43,6 +45,15 @@ def run(ctx):
     ]
     r = ctx.tlc("biff", "MC_Biff5", ctx.pick("MC_Biff5_quick.cfg", "MC_Biff5_thorough.cfg"),
                 workers=ctx.pick(4, 8), timeout=ctx.pick(300, 1800), xmx=ctx.pick("4g", "8g"))
+    # self-test: the reader as it was before 4e8471f (BIFF8 strings through the CODEPAGE page, BOM sniffing)
+    a = ctx.tlc("biff", "MC_Biff5", "MC_Biff5_aswas.cfg", workers=2, timeout=300, xmx="2g", allow_violation=True)
+    ctx.states -= a["distinct"]
+    ctx.transitions -= a["generated"]
+    ctx.extra["aswas_model_refuted"] = bool(a["violated"])
+    if not a["violated"]:
+        ctx.fail("selftest:aswas-model-not-refuted",
+                 {"kind": "selftest", "info": "MC_Biff5_aswas.cfg (strings decoded through the CODEPAGE page with BOM sniffing) was not refuted",
+                  "tlc_output": a["out"]})
     if "REPLAY" in r["tags"]:
         rep = ctx.replay("biff5", r["tags"]["REPLAY"])
         ctx.extra["replay_matched_ideal"] = rep.get("matched_ideal")
